@@ -39,14 +39,83 @@ theorem proceduralProps_keys (ps : List PProp) : (proceduralProps ps).map (·.1)
   | nil => rfl
   | cons p ps ih => cases p <;> simp [proceduralProps, PProp.key, ih]
 
-theorem propExpand_of_nodup (ps : List PProp) (h : (ps.map PProp.key).Nodup) :
-    propExpand ps = ps.flatMap PProp.nodes := by
+theorem proceduralProps_eq_map (ps : List PProp) :
+    proceduralProps ps = ps.map (fun p => (p.key, proceduralList p.nodes)) := by
+  induction ps with
+  | nil => rfl
+  | cons p ps ih => cases p <;> simp [proceduralProps, PProp.key, PProp.nodes, proceduralList, ih]
+
+theorem dedupKey_subset {α : Type} (l : List (Key × α)) : ∀ e ∈ dedupKey l, e ∈ l := by
+  induction l with
+  | nil => simp [dedupKey]
+  | cons x xs ih =>
+    obtain ⟨k, a⟩ := x
+    intro e he
+    simp only [dedupKey, List.mem_cons, List.mem_filter] at he
+    rcases he with rfl | ⟨he, _⟩
+    · simp
+    · exact List.mem_cons_of_mem _ (ih e he)
+
+/-- dropping the later occurrences of repeated keys changes nothing when whatever a repeated key carries is empty -/
+theorem dedupKey_flatMap {α β : Type} (l : List (Key × α)) (f : α → List β)
+    (h : ∀ e ∈ l, (l.map (·.1)).count e.1 > 1 → f e.2 = []) :
+    (dedupKey l).flatMap (fun e => f e.2) = l.flatMap (fun e => f e.2) := by
+  induction l with
+  | nil => rfl
+  | cons x xs ih =>
+    obtain ⟨k, a⟩ := x
+    have hxs : ∀ e ∈ xs, (xs.map (·.1)).count e.1 > 1 → f e.2 = [] := by
+      intro e he hc
+      apply h e (List.mem_cons_of_mem _ he)
+      simp only [List.map_cons, List.count_cons]
+      omega
+    have hdrop : ∀ e ∈ xs, e.1 = k → f e.2 = [] := by
+      intro e he hk
+      apply h e (List.mem_cons_of_mem _ he)
+      have : (xs.map (·.1)).count e.1 ≥ 1 := List.count_pos_iff.mpr (List.mem_map_of_mem he)
+      simp only [List.map_cons, List.count_cons, hk, beq_self_eq_true, if_true]
+      rw [hk] at this
+      omega
+    simp only [dedupKey, List.flatMap_cons]
+    congr 1
+    rw [← ih hxs]
+    generalize hd : dedupKey xs = d
+    have hdsub : ∀ e ∈ d, e ∈ xs := by rw [← hd]; exact dedupKey_subset xs
+    clear hd ih
+    induction d with
+    | nil => rfl
+    | cons y ys ihd =>
+      simp only [List.filter_cons]
+      have hys : ∀ e ∈ ys, e ∈ xs := fun e he => hdsub e (List.mem_cons_of_mem _ he)
+      by_cases hy : y.1 = k
+      · have := hdrop y (hdsub y (by simp)) hy
+        simp [hy, this, ihd hys]
+      · simp [hy, ihd hys]
+
+/-- `WFNode`'s clause on repeated keys, for any list of properties -/
+def DupEmpty (ps : List PProp) : Prop := ∀ p ∈ ps, (ps.map PProp.key).count p.key > 1 → p.nodes.isEmpty = true
+
+theorem propExpand_of_dupEmpty (ps : List PProp) (h : DupEmpty ps) : propExpand ps = ps.flatMap PProp.nodes := by
   unfold propExpand
-  rw [dedupKey_of_nodup]
-  · simp [List.flatMap_map]
-  · have : (ps.map fun p => (p.key, p.nodes)).map (·.1) = ps.map PProp.key := by
-      rw [List.map_map]; rfl
-    rw [this]; exact h
+  have := dedupKey_flatMap (ps.map fun p => (p.key, p.nodes)) (fun ns => ns) (by
+    intro e he hc
+    obtain ⟨p, hp, rfl⟩ := List.mem_map.mp he
+    have hk : (ps.map fun p => (p.key, p.nodes)).map (·.1) = ps.map PProp.key := by rw [List.map_map]; rfl
+    rw [hk] at hc
+    simpa using h p hp hc)
+  simpa [List.flatMap_map] using this
+
+theorem proceduralFlat_of_dupEmpty (ps : List PProp) (h : DupEmpty ps) :
+    (dedupKey (proceduralProps ps)).flatMap (·.2) = proceduralFlat ps := by
+  unfold proceduralFlat
+  rw [proceduralProps_eq_map]
+  exact dedupKey_flatMap (ps.map fun p => (p.key, proceduralList p.nodes)) (fun l => l) (by
+    intro e he hc
+    obtain ⟨p, hp, rfl⟩ := List.mem_map.mp he
+    have hk : (ps.map fun p => (p.key, proceduralList p.nodes)).map (·.1) = ps.map PProp.key := by rw [List.map_map]; rfl
+    rw [hk] at hc
+    have : p.nodes = [] := by simpa using h p hp hc
+    simp [this, proceduralList])
 
 theorem proceduralFlat_of_no_nodes (ps : List PProp) (h : ps.flatMap PProp.nodes = []) : proceduralFlat ps = [] := by
   induction ps with
@@ -66,19 +135,17 @@ theorem procedural_of_WFNode (n : PNode) (h : WFNode n) : procedural n = procedu
   simp only [procedural, PNode.props]
   cases t with
   | true =>
-    have : props = [] := by simpa using h1 rfl
-    simp [this]
+    have : props.flatMap PProp.nodes = [] := by simpa using h1 rfl
+    simp [proceduralFlat_of_no_nodes props this]
   | false =>
     simp only [Bool.false_eq_true, if_false]
     split
     · rename_i he
       have hu : under = [] := by simpa using h2 rfl he
       have : props.flatMap PProp.nodes = [] := by
-        rw [← propExpand_of_nodup props h3]; simpa using he
+        rw [← propExpand_of_dupEmpty props h3]; simpa using he
       simp [hu, proceduralList, proceduralFlat_of_no_nodes props this]
-    · rw [dedupKey_of_nodup]
-      · rfl
-      · rw [proceduralProps_keys]; exact h3
+    · exact proceduralFlat_of_dupEmpty props h3
 
 /-! ### the loop over the flattened list -/
 
@@ -137,8 +204,12 @@ theorem makeEventLoop_append (props : List PProp) (l1 l2 : List PProp) (fr : Lis
         · rfl
         · exact ih _ _
     · split
-      · rfl
-      · exact ih _ _
+      · split
+        · rfl
+        · exact ih _ _
+      · split
+        · rfl
+        · exact ih _ _
 
 /-- the shape of an event agrees with the shape of the properties: same keys, single ↔ single, list ↔ list of equal length -/
 def Shape : List PProp → Event R → Prop
@@ -159,39 +230,57 @@ theorem Shape.keys {ps : List PProp} {es : Event R} (h : Shape ps es) : es.map (
       · simp [PProp.key, h.1, ih h.2]
       · simp [PProp.key, h.1, ih h.2.2]
 
-theorem dictSet_append_new (acc : Event R) (k : Key) (v : EvVal R) (h : k ∉ acc.map (·.1)) :
-    dictSet acc k v = acc ++ [(k, v)] := by
-  induction acc with
-  | nil => rfl
-  | cons x xs ih =>
-    obtain ⟨k', v'⟩ := x
-    simp only [List.map_cons, List.mem_cons, not_or] at h
-    have hne : ¬ k' = k := fun e => h.1 e.symm
-    simp [dictSet, hne, ih h.2]
+theorem lookupProp_mem (props : List PProp) (k : Key) (q : PProp) (h : lookupProp props k = some q) :
+    q ∈ props ∧ q.key = k := by
+  unfold lookupProp at h
+  exact ⟨List.mem_of_find?_eq_some h, by simpa using List.find?_some h⟩
 
-theorem lookupProp_self (props : List PProp) (h : (props.map PProp.key).Nodup) (p : PProp) (hp : p ∈ props) :
-    (lookupProp props p.key).getD p = p := by
+theorem lookupProp_of_count_one (props : List PProp) (p : PProp) (hp : p ∈ props)
+    (hc : (props.map PProp.key).count p.key ≤ 1) : lookupProp props p.key = some p := by
   induction props with
   | nil => simp at hp
   | cons q qs ih =>
-    simp only [List.map_cons, List.nodup_cons] at h
+    simp only [List.map_cons, List.count_cons] at hc
     rcases List.mem_cons.mp hp with rfl | hq
     · simp [lookupProp]
-    · have : ¬ q.key = p.key := fun e => h.1 (by rw [e]; exact List.mem_map_of_mem hq)
+    · have hpos : (qs.map PProp.key).count p.key ≥ 1 := List.count_pos_iff.mpr (List.mem_map_of_mem hq)
+      have hne : ¬ q.key = p.key := by
+        intro e
+        simp [e] at hc
+        omega
       have hf : lookupProp (q :: qs) p.key = lookupProp qs p.key := by
-        simp [lookupProp, this]
+        simp [lookupProp, hne]
       rw [hf]
-      exact ih h.2 hq
+      apply ih hq
+      simp [hne] at hc
+      exact hc
+
+/-- what `__make_event` reads through the key (`getattr`) is as good as the entry itself -/
+def Interch (q p : PProp) : Prop := q.annList = p.annList ∧ q.isMany = p.isMany ∧ q.nodes.length = p.nodes.length
+
+theorem interch_of_WF (props : List PProp) (h3 : DupEmpty props) (h4 : ∀ p ∈ props, p.annList = p.isMany)
+    (p : PProp) (hp : p ∈ props) : Interch ((lookupProp props p.key).getD p) p := by
+  by_cases hc : (props.map PProp.key).count p.key ≤ 1
+  · rw [lookupProp_of_count_one props p hp hc]; exact ⟨rfl, rfl, rfl⟩
+  · have hc' : (props.map PProp.key).count p.key > 1 := by omega
+    cases hl : lookupProp props p.key with
+    | none => exact ⟨rfl, rfl, rfl⟩
+    | some q =>
+      obtain ⟨hq, hk⟩ := lookupProp_mem props p.key q hl
+      have hpn : p.nodes = [] := by simpa using h3 p hp hc'
+      have hqn : q.nodes = [] := by simpa using h3 q hq (by rw [hk]; exact hc')
+      have hp4 := h4 p hp
+      have hq4 := h4 q hq
+      cases p <;> cases q <;> simp_all [PProp.nodes, PProp.isMany, PProp.annList, Interch]
 
 /-- Core of the alignment argument: popping in reversed property order from a frame whose top part is the results of
     the properties' nodes (in push order) yields exactly the per-property event and leaves the rest of the frame. -/
 theorem makeEventLoop_exact (props : List PProp) (ps : List PProp) (evs : Event R) (fr : List R) (acc : Event R)
     (hsh : Shape ps evs)
-    (hlk : ∀ p ∈ ps, (lookupProp props p.key).getD p = p)
-    (hann : ∀ p ∈ ps, p.annList = p.isMany)
-    (hnd : (ps.map PProp.key).Nodup)
-    (hdis : ∀ p ∈ ps, p.key ∉ acc.map (·.1)) :
-    makeEventLoop props ps.reverse (evs.flat.reverse ++ fr) acc = (fr, .ok (acc ++ evs.reverse)) := by
+    (hlk : ∀ p ∈ ps, Interch ((lookupProp props p.key).getD p) p)
+    (hann : ∀ p ∈ ps, p.annList = p.isMany) :
+    makeEventLoop props ps.reverse (evs.flat.reverse ++ fr) acc =
+      (fr, .ok (evs.reverse.foldl (fun a kv => dictSet a kv.1 kv.2) acc)) := by
   induction ps generalizing evs fr with
   | nil =>
     cases evs with
@@ -202,12 +291,10 @@ theorem makeEventLoop_exact (props : List PProp) (ps : List PProp) (evs : Event 
     | nil => cases p <;> simp [Shape] at hsh
     | cons e es =>
       obtain ⟨k', v⟩ := e
-      simp only [List.map_cons, List.nodup_cons] at hnd
       have hlp := hlk p (by simp)
       have hap := hann p (by simp)
-      have hkacc := hdis p (by simp)
       have ih' := fun (es : Event R) fr hsh => ih es fr hsh (fun q hq => hlk q (by simp [hq]))
-        (fun q hq => hann q (by simp [hq])) hnd.2 (fun q hq => hdis q (by simp [hq]))
+        (fun q hq => hann q (by simp [hq]))
       rw [List.reverse_cons, makeEventLoop_append]
       cases p with
       | one k a n =>
@@ -221,13 +308,16 @@ theorem makeEventLoop_exact (props : List PProp) (ps : List PProp) (evs : Event 
           rw [hfl, ih' es (r :: fr) hsh]
           simp only [PProp.annList, PProp.isMany] at hap
           subst hap
-          simp only [PProp.key] at hlp hkacc hnd
-          have hknew : k ∉ (acc ++ es.reverse).map (·.1) := by
-            simp only [List.map_append, List.map_reverse, List.mem_append, List.mem_reverse, not_or]
-            exact ⟨hkacc, by rw [hsh.keys]; exact hnd.1⟩
-          simp only [makeEventLoop, PProp.key, hlp, PProp.annList, Bool.false_eq_true, if_false]
-          rw [dictSet_append_new _ _ _ hknew]
-          simp
+          obtain ⟨h1, h2, _⟩ := hlp
+          simp only [PProp.key] at h1 h2
+          simp only [makeEventLoop, PProp.key]
+          cases hq : (lookupProp props k).getD (PProp.one k false n) with
+          | one k2 a2 n2 =>
+            rw [hq] at h1
+            simp only [PProp.annList] at h1
+            subst h1
+            simp [List.foldl_append]
+          | many k2 a2 ns2 => rw [hq] at h2; simp [PProp.isMany] at h2
       | many k a ns =>
         cases v with
         | one r => simp [Shape] at hsh
@@ -239,24 +329,33 @@ theorem makeEventLoop_exact (props : List PProp) (ps : List PProp) (evs : Event 
           rw [hfl, ih' es (rs.reverse ++ fr) hsh]
           simp only [PProp.annList, PProp.isMany] at hap
           subst hap
-          simp only [PProp.key] at hlp hkacc hnd
-          have hknew : k ∉ (acc ++ es.reverse).map (·.1) := by
-            simp only [List.map_append, List.map_reverse, List.mem_append, List.mem_reverse, not_or]
-            exact ⟨hkacc, by rw [hsh.keys]; exact hnd.1⟩
-          have hpop : popN ns.length (rs.reverse ++ fr) = (fr, some rs.reverse) := by
-            have := popN_exact rs.reverse fr
-            rwa [List.length_reverse, hlen] at this
-          simp only [makeEventLoop, PProp.key, hlp, PProp.annList, if_true, hpop]
-          rw [dictSet_append_new _ _ _ hknew]
-          simp
+          obtain ⟨h1, h2, h3⟩ := hlp
+          simp only [PProp.key] at h1 h2 h3
+          simp only [makeEventLoop, PProp.key]
+          cases hq : (lookupProp props k).getD (PProp.many k true ns) with
+          | one k2 a2 n2 => rw [hq] at h2; simp [PProp.isMany] at h2
+          | many k2 a2 ns2 =>
+            rw [hq] at h1 h3
+            simp only [PProp.annList] at h1
+            subst h1
+            simp only [PProp.nodes] at h3
+            have hpop : popN ns2.length (rs.reverse ++ fr) = (fr, some rs.reverse) := by
+              have := popN_exact rs.reverse fr
+              rwa [List.length_reverse, hlen, ← h3] at this
+            simp [hpop, List.foldl_append]
 
 /-- `__make_event` of a well-formed node on a frame topped by its property nodes' results. -/
 theorem makeEvent_exact (n : PNode) (hwf : WFNode n) (evs : Event R) (fr : List R) (hsh : Shape n.props evs) :
-    makeEvent n (evs.flat.reverse ++ fr) = (fr, .ok evs.reverse) := by
-  obtain ⟨_, _, hnd, hann⟩ := hwf
+    makeEvent n (evs.flat.reverse ++ fr) = (fr, .ok (refEvent evs)) := by
+  obtain ⟨_, _, h3, hann⟩ := hwf
   have := makeEventLoop_exact n.props n.props evs fr [] hsh
-    (fun p hp => lookupProp_self n.props hnd p hp) hann hnd (fun _ _ => by simp)
-  simpa [makeEvent] using this
+    (fun p hp => interch_of_WF n.props h3 hann p hp) hann
+  simpa [makeEvent, refEvent] using this
+
+end machine
+
+section machine
+variable {R : Type}
 
 /-! ### handler programs -/
 
@@ -325,14 +424,14 @@ theorem processNode_sim (n : PNode) (hwf : WFNode n) (evs : Event R) (hsh : Shap
   | none => simp
   | some h =>
     simp only [hme]
-    obtain ⟨hok, herr⟩ := runProg_sim nested dn hN (h (PNode.mk id cls t props under) evs.reverse)
+    obtain ⟨hok, herr⟩ := runProg_sim nested dn hN (h (PNode.mk id cls t props under) (refEvent evs))
       (hH cls h hf _ _) (fr :: rest)
     constructor
     · intro r hr
       simp [hok r hr]
     · intro e he
       have := herr e he
-      cases hrp : runProg nested (fr :: rest) (h (PNode.mk id cls t props under) evs.reverse) with
+      cases hrp : runProg nested (fr :: rest) (h (PNode.mk id cls t props under) (refEvent evs)) with
       | mk st2 res =>
         rw [hrp] at this
         simp only at this
@@ -480,7 +579,7 @@ end
     it consumes exactly the results of `n`'s own property nodes, and nothing else of the frame -/
 def EventAt (n : PNode) (s : St R) (rest : St R) : Prop :=
   ∃ evs fr', denoteProps dn hs n.props = .ok evs ∧ s = (evs.flat.reverse ++ fr') :: rest ∧
-    makeEvent n (evs.flat.reverse ++ fr') = (fr', .ok evs.reverse)
+    makeEvent n (evs.flat.reverse ++ fr') = (fr', .ok (refEvent evs))
 
 omit hN hH in
 theorem split_append {α : Type} (A B pre post : List α) (n : α) (h : A ++ B = pre ++ n :: post) :
